@@ -74,7 +74,7 @@ def shard(p):
         # (b) compounds
         for _ in range(p["n_compound"]):
             xs, x = magnitude(rng)
-            form = rng.randint(0, 8)
+            form = rng.randint(0, 10)
             s1 = rng.choice("CF")
             s2 = rng.choice("KCF")
             if s1 == s2:
@@ -107,6 +107,22 @@ def shard(p):
                 else:
                     u1, u2 = "%s/%s" % (ctext, w1), "%s/%s" % (ttext, w2)
                     factor = (cs / ts) * (SLOPE[s2] / SLOPE[s1])
+            elif form in (9, 10):
+                # the SAME companion units, same prefix and power, on both sides (lb*°F to lb*°C, °F/acre to °C/acre), drawn from
+                # the whole vocabulary: a shortcut that pairs up and skips what both sides share must not leave the scale looking
+                # like a lone temperature (seed C09-d)
+                comp = V.rand_factors(rng, nmax=form - 8, pool=nonk)
+                if len({e["key"] for e, _ in comp}) != len(comp):
+                    continue
+                ctext = G.text(comp, rng)
+                if "/" in ctext:
+                    continue
+                sep = rng.choice(["*", " "])
+                if rng.random() < 0.5:
+                    u1, u2 = ctext + sep + w1, ctext + sep + w2
+                else:
+                    u1, u2 = w1 + sep + ctext, w2 + sep + ctext
+                factor = SLOPE[s1] / SLOPE[s2]
             elif form in (6, 7, 8):
                 # companions whose dimensions cancel (min/s, ft/in, Hz*s ...): the compound as a whole has the dimension of a
                 # temperature, but it is not a lone scale - the zero point must not be added (seed C09-c)
